@@ -17,6 +17,7 @@ import (
 	"net"
 	"net/http"
 	"net/url"
+	"strings"
 	"sync"
 	"sync/atomic"
 	"time"
@@ -1183,11 +1184,40 @@ func (d *DoUDP) ForwardDNS(ctx context.Context, data []byte) (*dnsmessage.Msg, e
 			badConn = true
 			return nil, err
 		}
+		if !dnsResponseMatchesQuery(data, &msg) {
+			// Same ID but another question: a late or duplicated reply to an earlier
+			// request on this pooled socket, or a spoofed packet. Keep waiting.
+			staleResponses++
+			if staleResponses > maxStaleResponses {
+				udpPool.discard(conn)
+				badConn = true
+				return nil, fmt.Errorf("too many stale UDP DNS responses")
+			}
+			continue
+		}
 		if msg.Truncated {
 			return &msg, ErrDNSTruncated
 		}
 		return &msg, nil
 	}
+}
+
+// dnsResponseMatchesQuery reports whether resp answers the question carried by
+// the packed query (name compared case-insensitively, type and class equal).
+func dnsResponseMatchesQuery(query []byte, resp *dnsmessage.Msg) bool {
+	if resp == nil {
+		return false
+	}
+	var req dnsmessage.Msg
+	if err := req.Unpack(query); err != nil || len(req.Question) == 0 {
+		return true // nothing to compare with
+	}
+	if len(resp.Question) == 0 {
+		// Some servers omit the question section in error replies.
+		return resp.Rcode != dnsmessage.RcodeSuccess
+	}
+	q, r := req.Question[0], resp.Question[0]
+	return len(resp.Question) == 1 && strings.EqualFold(q.Name, r.Name) && q.Qtype == r.Qtype && q.Qclass == r.Qclass
 }
 
 func (d *DoUDP) Close() error {
